@@ -1456,12 +1456,18 @@ class Container:
                 new_solution = Container(name)
             if x:
                 source, new_solution = Container.transfer(source, new_solution, f"{x} mL")
+            else:
+                source = deepcopy(source)  # (what is returned is never the argument itself)
         else:
             new_solution = Container(name)
             if x:
                 source, new_solution = Container.transfer(source, new_solution, f"{x} mL")
+            else:
+                source = deepcopy(source)
             if y:
                 solvent, new_solution = Container.transfer(solvent, new_solution, f"{y} mL")
+            else:
+                solvent = deepcopy(solvent)
 
         precision = config.precisions['mL'] if 'mL' in config.precisions else config.precisions['default']
         new_solution.instructions = f"Add {round(y, precision)} mL of {solvent.name} to" + \
